@@ -58,6 +58,7 @@ WRAPPERS = (
     lambda t: L(L(t)),
 )
 WRAP_WEIGHTS = (6, 3, 3, 1, 2, 1, 1)
+ABSTRACT_WRAP_WEIGHTS = (2, 1, 5, 2, 4, 2, 1)
 
 
 class ArgDef:
@@ -206,7 +207,11 @@ def gen_schema(st, want_mutation=False, small=False,
         composite_targets.append("U0")
 
     def draw_type(base):
-        w = st.weighted(WRAP_WEIGHTS, "wrap")
+        # positions of abstract type are mostly lists: heterogeneous lists are
+        # where type-conditioned fragments and merging matter
+        weights = ABSTRACT_WRAP_WEIGHTS if (
+            base in if_names or base == "U0") else WRAP_WEIGHTS
+        w = st.weighted(weights, "wrap")
         return WRAPPERS[w](N(base))
 
     def draw_args():
@@ -240,6 +245,10 @@ def gen_schema(st, want_mutation=False, small=False,
         pool = leaf_fields + comp_fields
         for _ in range(k):
             f = pool[st.below(len(pool), "if_f")]
+            if f not in fields:
+                fields.append(f)
+        if st.chance(2, 3, "if_comp"):
+            f = comp_fields[st.below(len(comp_fields), "if_cf")]
             if f not in fields:
                 fields.append(f)
         spec.interfaces[iname] = {"fields": fields}
@@ -564,13 +573,24 @@ class OpGen:
         for a in fdef.args:
             required = a.type[0] == "NN"
             w = (4, 3, 2, 1) if not required else (4, 3, 0, 0)
-            if self.features.get("prefer_vars"):
+            if self.features.get("literal_only"):
+                # scalar / enum literals or omitted: such argument sets may be
+                # repeated under one response key
+                if a.type[0] == "L" or named(a.type) == "Inp":
+                    if required:
+                        w = (1, 0, 0, 0)
+                    else:
+                        continue
+                else:
+                    w = (3, 0, 1, 0) if not required else (1, 0, 0, 0)
+            elif self.features.get("prefer_vars"):
                 w = (1, 8, 1, 0) if not required else (1, 8, 0, 0)
             mode = st.weighted(w, "argmode")
             # 0 literal, 1 variable, 2 omitted, 3 explicit null
             if mode == 2:
                 continue
             if (a.type[0] == "L" and a.type[1][0] == "NN"
+                    and not self.features.get("literal_only")
                     and st.chance(1, 3, "nnlistvar")):
                 # ``[$v]`` with ``$v: T = default`` in a list of non-null T:
                 # valid (the default makes the nullable variable usable),
@@ -618,7 +638,7 @@ class OpGen:
                 argspec[a.name] = ("lit", val[2])
         return args, argspec
 
-    def _argset_for(self, fdef):
+    def _argset_for(self, fdef, literal_only=False):
         """Pick (alias, args, kwargs).  Un-aliased occurrences always use
         argument set 0 so that same response key => identical arguments.
 
@@ -635,6 +655,14 @@ class OpGen:
             idx = 1 + st.below(2, "alias_idx")
         if idx in sets and sets[idx][2]:
             idx = max(sets) + 1
+        if literal_only and idx not in sets:
+            saved = self.features.get("literal_only")
+            self.features["literal_only"] = True
+            try:
+                args, argspec = self._gen_argset(fdef)
+            finally:
+                self.features["literal_only"] = saved
+            sets[idx] = (args, argspec, False)
         if idx not in sets:
             args, argspec = self._gen_argset(fdef)
             nodup = any(
@@ -699,7 +727,7 @@ class OpGen:
         st = self.st
         spec = self.spec
         sels = []
-        if outer and depth > 0 and st.chance(1, 3, "remerge"):
+        if outer and depth > 0 and st.chance(1, 2, "remerge"):
             f = self._remerge(tname, depth, outer)
             if f is not None:
                 sels.append(f)
@@ -707,6 +735,25 @@ class OpGen:
         if self.budget <= 0:
             n = 1
         fields = spec.type_fields(tname)
+        if tname in spec.interfaces and depth > 0 and self.budget > 0:
+            # on an interface, lead with a composite field selected for every
+            # implementation and follow with a fragment on ONE implementation:
+            # the same first node then stands for different merged groups
+            comps = [f for f in fields
+                     if spec.is_composite(named(spec.fields[f].type))]
+            impls = spec.possible_types(tname)
+            if comps and len(impls) > 1 and st.chance(3, 4, "if_lead"):
+                lead = self._gen_field(tname, depth, only=comps,
+                                       literal_args=True)
+                if lead is not None:
+                    sels.append(lead)
+                    cond = impls[st.below(len(impls), "if_narrow")]
+                    twin = self._remerge(cond, depth, [lead])
+                    inner = self.gen_selset(cond, depth - 1)
+                    if twin is not None:
+                        inner.insert(st.below(len(inner) + 1, "twin_at"),
+                                     twin)
+                    sels.append(InlineFrag(cond, inner, self._dirs()))
         for _ in range(n):
             choice = st.weighted((8, 2, 2, 1), "sel_kind")
             # 0 field, 1 inline fragment, 2 spread, 3 __typename
@@ -760,10 +807,11 @@ class OpGen:
                 sels.append(f)
         return sels
 
-    def _gen_field(self, tname, depth, force_leafish=False):
+    def _gen_field(self, tname, depth, force_leafish=False, only=None,
+                   literal_args=False):
         st = self.st
         spec = self.spec
-        fields = spec.type_fields(tname)
+        fields = only or spec.type_fields(tname)
         if not fields:
             return None
         cands = fields
@@ -780,7 +828,7 @@ class OpGen:
                 return f
         fname = cands[st.below(len(cands), "field")]
         fdef = spec.fields[fname]
-        alias, args, argspec = self._argset_for(fdef)
+        alias, args, argspec = self._argset_for(fdef, literal_args)
         self.budget -= 1
         target = named(fdef.type)
         sel = None
